@@ -239,13 +239,20 @@ def compare_pairs(pairs, replies, accept=None):
     """first index where a facet differs (and accept(line, facets) holds, when given)
     -> (index, [facets], real, model) or None.
     Facets present on only one side are ignored unless the model answered bad-op/bad-handle."""
+    diverged = False
     for i, ((line, real), rep) in enumerate(zip(pairs, replies)):
         model = parse_reply(rep)
         if "_raw" in model and model["_raw"] in ("bad-op", "bad-handle"):
+            if diverged and model["_raw"] == "bad-handle":
+                # a consequence of an earlier disagreement the caller does not look at (e.g. the constructor
+                # succeeded on one side only): nothing further can be compared in this sequence
+                return None
             raise MachineryError(f"driver rejected request {line!r}: {model['_raw']}")
         diffs = [k for k in real if k in model and real[k] != model[k]]
-        if diffs and (accept is None or accept(line, diffs)):
-            return i, diffs, real, model
+        if diffs:
+            diverged = True
+            if accept is None or accept(line, diffs):
+                return i, diffs, real, model
     return None
 
 
